@@ -272,7 +272,7 @@ def grid(name):
   return scalar_grid(name) if FIELDS[name]['kind'] in ('int', 'float') else pair_grid(name)
 
 
-def enumerate(tier):  # pylint: disable=redefined-builtin
+def enumerate_cases(tier):
   for name in FIELDS:
     for v in grid(name):
       yield {'fields': {name: enc(v)}}
